@@ -681,22 +681,32 @@ func (h *c19Run) judge() (finds []c19Finding, decisions int64, observed map[stri
 	}
 	assigned := make([][]asg, nF)
 	maxBefore := make([][]int, nF) // prefix maxima of order by t1
-	floorFor := func(f int, t0 int64) int {
+	posBefore := make([][]int, nF) // same, counting only samples that positively SHOWED something of the file
+	floorsFor := func(f int, t0 int64) (floor, positive int) {
 		a := assigned[f]
 		// samples are appended in t1 order: binary search the last with t1 < t0
 		k := sort.Search(len(a), func(i int) bool { return a[i].t1 >= t0 })
 		if k == 0 {
-			return 0
+			return 0, 0
 		}
-		return maxBefore[f][k-1]
+		return maxBefore[f][k-1], posBefore[f][k-1]
 	}
-	push := func(f int, t1 int64, order int) {
+	push := func(f int, t1 int64, order int, positive bool) {
 		assigned[f] = append(assigned[f], asg{t1, order})
-		m := order
-		if n := len(maxBefore[f]); n > 0 && maxBefore[f][n-1] > m {
-			m = maxBefore[f][n-1]
+		m, pm := order, 0
+		if positive {
+			pm = order
+		}
+		if n := len(maxBefore[f]); n > 0 {
+			if maxBefore[f][n-1] > m {
+				m = maxBefore[f][n-1]
+			}
+			if posBefore[f][n-1] > pm {
+				pm = posBefore[f][n-1]
+			}
 		}
 		maxBefore[f] = append(maxBefore[f], m)
+		posBefore[f] = append(posBefore[f], pm)
 	}
 	// writes, for the "sample overlapped a write" counter
 	type iv struct{ tb, te int64 }
@@ -778,7 +788,7 @@ func (h *c19Run) judge() (finds []c19Finding, decisions int64, observed map[stri
 		for _, fp := range preds {
 			decisions++
 			f := fp.f
-			floor := floorFor(f, s.T0)
+			floor, posFloor := floorsFor(f, s.T0)
 			best, below := -1, -1
 			var bestV *c19Version
 			for _, v := range h.vers[f] {
@@ -803,7 +813,7 @@ func (h *c19Run) judge() (finds []c19Finding, decisions int64, observed map[stri
 				}
 			}
 			if best >= 0 {
-				push(f, s.T1, best)
+				push(f, s.T1, best, (s.Get == "" && len(fp.part) > 0) || (s.Get != "" && s.Found))
 				if bestV != nil && bestV.Seq > 0 {
 					observed[fmt.Sprintf("%d/%d/%d", h.idx, f, bestV.Seq)] = true
 				}
@@ -822,16 +832,15 @@ func (h *c19Run) judge() (finds []c19Finding, decisions int64, observed map[stri
 				}
 			case below >= 0:
 				class = "went-backwards"
-				// If the version that forbids going back is one WITHOUT namespaces (a
-				// removal / emptying that had merely begun when an earlier sample saw
-				// nothing of this file), the anomaly is "the namespaces vanished and came
-				// back": the earlier emptiness is the unexplained part.
-				for _, v := range h.vers[f] {
-					if v.order == floor && len(v.Names) == 0 {
-						class = "namespaces-lost"
-						if nF > 1 {
-							class = "other-file-namespaces-lost"
-						}
+				// The floor may have been raised only by samples that saw NOTHING of this
+				// file (empty part / name not found) and were explained by a newer version
+				// whose write had merely begun. If the version shown now is not older than
+				// what any sample positively showed, the unexplained part is that earlier
+				// absence: the namespaces vanished and came back.
+				if below >= posFloor {
+					class = "namespaces-lost"
+					if nF > 1 {
+						class = "other-file-namespaces-lost"
 					}
 				}
 			default:
